@@ -6,6 +6,9 @@ import OptreeModel.Lemmas.EncBroadcast
 import OptreeModel.Lemmas.PrefixOrder
 import OptreeModel.Lemmas.LubOrder
 import OptreeModel.Properties.C07
+import OptreeModel.Properties.C05
+import OptreeModel.Properties.C02
+import OptreeModel.Lemmas.GraftBuild
 
 namespace Optree
 
@@ -455,5 +458,152 @@ example : ∃ c, C09_demoA.lub C09_demoB = some c ∧ C09_demoB.prefixB c = true
 /-- a genuinely conflicting pair (`(*, *)` against `[*, *]`) has no common suffix -/
 example : (STree.node ⟨.tuple, .none, Option.none, Option.none, Option.none⟩ [.leaf, .leaf]).lub
     (.node ⟨.list, .none, Option.none, Option.none, Option.none⟩ [.leaf, .leaf]) = Option.none := by decide
+
+
+/-! ### leaf replication: `tree_broadcast_prefix` / `broadcast_prefix` at tree level -/
+
+/-- what `broadcast_leaves(x, subtree)` returns: a tree of the subtree's shape whose every leaf is `x` -/
+def BcastRel (cfg : Cfg) (p : PyObj × PyObj) (y : PyObj) : Prop :=
+  broadcastLeaves cfg p.1 p.2 = .ok y ∧
+  shapeOf cfg (!cfg.insertionOrdered) y = shapeOf cfg (!cfg.insertionOrdered) p.2 ∧
+  leavesOf cfg (!cfg.insertionOrdered) y = List.replicate (leavesOf cfg (!cfg.insertionOrdered) p.2).length p.1 ∧
+  y.wf = true
+
+theorem bcast_one (cfg : Cfg) (hreg : cfg.reg.OK) (hp : cfg.pred = Option.none) (x sub : PyObj)
+    (hx : LeafLike cfg (!cfg.insertionOrdered) x) (hw : sub.wf = true) (ls : List PyObj) (ss : Spec)
+    (hf : flatten cfg sub = .ok (ls, ss)) : ∃ y, BcastRel cfg (x, sub) y := by
+  obtain ⟨_, hnl⟩ := C01_flatten_sane cfg sub ls ss hf
+  obtain ⟨y, hu, g1, g2, g3⟩ := unflatten_graft cfg hreg hp sub hw ls ss hf (List.replicate ss.numLeaves x)
+    (by simp [hnl])
+  obtain ⟨_, hlen⟩ := flatten_shapeOf cfg hp sub hw ls ss hf
+  have hls := C02_leaf_order cfg sub ls ss hf
+  refine ⟨y, ?_, ?_, ?_, ?_⟩
+  · simp [broadcastLeaves, hf, hu]
+  · rw [g1]
+    apply STree.graftN_leaves
+    · simp [hnl, hlen]
+    · intro z hz
+      simp only [List.map_replicate, List.mem_replicate] at hz
+      rw [hz.2]; exact hx.1
+  · rw [g2, ← hls, ← hnl]
+    generalize ss.numLeaves = n
+    induction n with
+    | zero => rfl
+    | succ n ih => simp only [List.replicate_succ, List.flatMap_cons, hx.2.1, ih]; rfl
+  · exact g3 (fun z hz => by rw [(List.mem_replicate.mp hz).2]; exact hx.2.2)
+
+theorem bcast_all (cfg : Cfg) (hreg : cfg.reg.OK) (hp : cfg.pred = Option.none) :
+    ∀ (pairs : List (PyObj × PyObj)),
+      (∀ p ∈ pairs, LeafLike cfg (!cfg.insertionOrdered) p.1 ∧ p.2.wf = true ∧ ∃ ls ss, flatten cfg p.2 = .ok (ls, ss)) →
+      ∃ outs : List PyObj, List.Forall₂ (BcastRel cfg) pairs outs
+  | [], _ => ⟨[], List.Forall₂.nil⟩
+  | p :: pairs, h => by
+      obtain ⟨hx, hw, ls, ss, hf⟩ := h p (by simp)
+      obtain ⟨y, hy⟩ := bcast_one cfg hreg hp p.1 p.2 hx hw ls ss hf
+      obtain ⟨outs, ho⟩ := bcast_all cfg hreg hp pairs (fun q hq => h q (by simp [hq]))
+      exact ⟨y :: outs, List.Forall₂.cons hy ho⟩
+
+theorem forall₂_length {α β : Type} {R : α → β → Prop} : ∀ {l : List α} {m : List β}, List.Forall₂ R l m → l.length = m.length
+  | [], [], _ => rfl
+  | _ :: _, _ :: _, .cons _ h => by simp [forall₂_length h]
+
+theorem callAll_forall₂ (cfg : Cfg) (f : UserFn)
+    (hf : ∀ i x sub, f i [Arg.obj x, Arg.obj sub] = broadcastLeaves cfg x sub) :
+    ∀ (pairs : List (PyObj × PyObj)) (outs : List PyObj),
+    List.Forall₂ (BcastRel cfg) pairs outs → ∀ (i : Nat) (acc : List PyObj) (log : List (List Arg)),
+    (callAll f i (pairs.map fun p => [Arg.obj p.1, Arg.obj p.2]) acc log).1 = .ok (acc.reverse ++ outs)
+  | [], [], _, _, _, _ => by simp [callAll]
+  | p :: pairs, y :: outs, .cons hy ho, i, acc, log => by
+      have hx : f i [Arg.obj p.1, Arg.obj p.2] = .ok y := by rw [hf]; exact hy.1
+      simp only [List.map_cons, callAll, hx]
+      rw [callAll_forall₂ cfg f hf pairs outs ho (i + 1) (y :: acc) _]
+      simp
+
+theorem zip_args_pairs (ls subs : List PyObj) (hl : subs.length = ls.length) :
+    ((List.range ls.length).map fun i => [ls, subs].map fun l => Arg.obj l[i]!) =
+      (ls.zip subs).map fun p => [Arg.obj p.1, Arg.obj p.2] := by
+  apply List.ext_getElem
+  · simp [hl]
+  · intro i h1 h2
+    have hi : i < ls.length := by simpa using h1
+    have hi' : i < subs.length := by omega
+    simp [hi, hi']
+
+/-- **`tree_broadcast_prefix` at tree level** (no predicate): when the prefix tree's treespec matches the full tree
+(`flatten_up_to` succeeds, C07) the result is built from the prefix tree's records with, in place of its i-th leaf
+`x_i`, a tree of the shape of the i-th matched subtree whose every leaf is `x_i`: its shape is the prefix shape
+with the matched subtrees' shapes grafted on, and its leaves are each prefix leaf repeated once per leaf of the
+subtree it covers — "every leaf equals the unique prefix leaf above it". -/
+theorem C09_broadcast_prefix_tree (cfg : Cfg) (hreg : cfg.reg.OK) (hp : cfg.pred = Option.none) (pre full : PyObj)
+    (hwp : pre.wf = true) (lp : List PyObj) (sp : Spec) (hfp : flatten cfg pre = .ok (lp, sp))
+    (subs : List PyObj) (hup : flattenUpTo cfg.reg sp full = .ok subs) (hlen : subs.length = lp.length)
+    (hsubs : ∀ sub ∈ subs, sub.wf = true ∧ ∃ ls ss, flatten cfg sub = .ok (ls, ss)) :
+    ∃ r, treeBroadcastPrefix cfg pre full = .ok r ∧
+      shapeOf cfg (!cfg.insertionOrdered) r =
+        (shapeOf cfg (!cfg.insertionOrdered) pre).graftN (subs.map (shapeOf cfg (!cfg.insertionOrdered))) ∧
+      leavesOf cfg (!cfg.insertionOrdered) r =
+        (lp.zip subs).flatMap fun p => List.replicate (leavesOf cfg (!cfg.insertionOrdered) p.2).length p.1 := by
+  have hleaf : ∀ x ∈ lp, LeafLike cfg (!cfg.insertionOrdered) x := by
+    intro x hx
+    rw [C02_leaf_order cfg pre lp sp hfp] at hx
+    exact leafLike_of_mem cfg hp _ pre hwp x hx
+  obtain ⟨outs, hrel⟩ := bcast_all cfg hreg hp (lp.zip subs) (by
+    intro p hpm
+    have := List.of_mem_zip hpm
+    exact ⟨hleaf p.1 this.1, hsubs p.2 this.2⟩)
+  have hol : outs.length = lp.length := by
+    have := forall₂_length hrel
+    simp [List.length_zip, hlen] at this
+    exact this.symm
+  obtain ⟨r, hur, g1, g2, _⟩ := unflatten_graft cfg hreg hp pre hwp lp sp hfp outs hol
+  have hshapes : outs.map (shapeOf cfg (!cfg.insertionOrdered)) = subs.map (shapeOf cfg (!cfg.insertionOrdered)) := by
+    have : ∀ (pairs : List (PyObj × PyObj)) (os : List PyObj), List.Forall₂ (BcastRel cfg) pairs os →
+        os.map (shapeOf cfg (!cfg.insertionOrdered)) = pairs.map fun p => shapeOf cfg (!cfg.insertionOrdered) p.2 := by
+      intro pairs os h
+      induction h with
+      | nil => rfl
+      | cons hy _ ih => simp [hy.2.1, ih]
+    rw [this _ _ hrel]
+    have hz : (lp.zip subs).map (·.2) = subs := by rw [List.map_snd_zip]; omega
+    have e : ((lp.zip subs).map fun p => shapeOf cfg (!cfg.insertionOrdered) p.2) =
+        ((lp.zip subs).map (·.2)).map (shapeOf cfg (!cfg.insertionOrdered)) := by
+      simp [List.map_map, Function.comp_def]
+    rw [e, hz]
+  have hleaves : outs.flatMap (leavesOf cfg (!cfg.insertionOrdered)) =
+      (lp.zip subs).flatMap fun p => List.replicate (leavesOf cfg (!cfg.insertionOrdered) p.2).length p.1 := by
+    have : ∀ (pairs : List (PyObj × PyObj)) (os : List PyObj), List.Forall₂ (BcastRel cfg) pairs os →
+        os.flatMap (leavesOf cfg (!cfg.insertionOrdered)) =
+          pairs.flatMap fun p => List.replicate (leavesOf cfg (!cfg.insertionOrdered) p.2).length p.1 := by
+      intro pairs os h
+      induction h with
+      | nil => rfl
+      | cons hy _ ih => simp [List.flatMap_cons, hy.2.2.1, ih]
+    exact this _ _ hrel
+  refine ⟨r, ?_, by rw [g1, hshapes], by rw [g2, hleaves]⟩
+  -- the Python layer: tree_map(broadcast_leaves, prefix_tree, full_tree)
+  have key : ∀ f : UserFn, (∀ i x sub, f i [Arg.obj x, Arg.obj sub] = broadcastLeaves cfg x sub) →
+      (treeMapGen cfg .plain false f pre [full]).result = .ok r := by
+    intro f hf
+    unfold treeMapGen
+    have hcols := zipArgs_same_length lp [subs] (by simp [hlen])
+    have hargs : (List.range (min (lp.map fun _ => ([] : List Arg)).length (zipArgs [lp, subs]).length)).map
+        (fun i => (lp.map fun _ => ([] : List Arg))[i]! ++ ((zipArgs [lp, subs])[i]!).map Arg.obj) =
+        (lp.zip subs).map fun p => [Arg.obj p.1, Arg.obj p.2] := by
+      rw [← zip_args_pairs lp subs hlen, hcols]
+      simp only [List.length_map, List.length_range, Nat.min_self]
+      apply List.map_congr_left
+      intro i hi
+      have hi' : i < lp.length := by simpa using hi
+      simp [hi']
+    have hcall := callAll_forall₂ cfg f hf (lp.zip subs) outs hrel 0 [] []
+    simp only [hfp, List.mapM_cons, List.mapM_nil, hup, bind, Except.bind, pure, Except.pure, hargs]
+    cases hc : callAll f 0 ((lp.zip subs).map fun p => [Arg.obj p.1, Arg.obj p.2]) [] [] with
+    | mk res log =>
+      rw [hc] at hcall
+      simp only at hcall
+      subst hcall
+      simp [hur]
+  unfold treeBroadcastPrefix
+  exact key _ (fun _ _ _ => rfl)
 
 end Optree
